@@ -2,7 +2,7 @@
    Model: coq/Model/C11_Row.v ([enc]/[enc_row] = RowConverter::convert_columns bytes, [dec]/[dec_row] =
    convert_rows, [cmp_field]/[row_cmp] = logical comparison under SortOptions, [lex] = Row::cmp). *)
 From Coq Require Import List ZArith NArith.
-From AV Require Import Model.C11_Row Proofs.C11_Lex Proofs.C11_Fixed Proofs.C11_Var Proofs.C11_Unfold Proofs.C11_Field Proofs.C11_Nested Proofs.C11_RowOrder Proofs.C11_Decode.
+From AV Require Import Model.C11_Row Proofs.C11_Lex Proofs.C11_Fixed Proofs.C11_Var Proofs.C11_Unfold Proofs.C11_Field Proofs.C11_Nested Proofs.C11_RowOrder Proofs.C11_Decode Proofs.C11_Len.
 Import ListNotations.
 Local Open Scope N_scope.
 
@@ -76,6 +76,13 @@ Theorem var_order_strong : forall (nf : bool) (v w x y : list N),
   = match lex v w with Eq => lex x y | c => c end.
 Proof. exact var_strong_asc. Qed.
 Print Assumptions var_order_strong.
+
+(* the row length pre-computed by row_lengths (padded_length, which the writes into the pre-sized
+   buffer rely on) is exactly the number of bytes encode_one produces, for null / empty / any length *)
+Theorem lengths_exact : forall (o : opts) (v : option (list N)),
+  length (encode_one o v) = padded_length (option_map (@length N) v).
+Proof. exact encode_one_length. Qed.
+Print Assumptions lengths_exact.
 
 (* decode_blocks returns the (still inverted) data and the exact number of bytes consumed *)
 Theorem decode_blocks_inverts : forall (o : opts) (b rest : list N),
